@@ -306,7 +306,7 @@ def run(tier: str) -> int:
         trs = common.pmap(record_scale_trace, specs, chunksize=4)
     finally:
         os.environ.pop("NUMBA_ENABLE_CUDASIM", None)
-    kept = [t for t in trs if t["ev"] and t["c"]["budget"] <= 64]
+    kept = [t for t in trs if t["ev"] and t["c"]["budget"] <= 1024]
     V.set("scale_traces_dropped_ill_conditioned", len(trs) - len(kept))
     V.set("scale_traces_with_K_above_8192", sum(1 for t in kept if t["meta"]["K"] > 8192))
     verdicts, tres = traces.validate("KernelTrace", f"{PID}_trace", kept)
@@ -323,7 +323,7 @@ def run(tier: str) -> int:
     V.assumptions += [
         "lattice completeness: the statistics are (sesqui)linear/quadratic/quartic forms in the data for fixed (L, starts, window, w, order); impulses, impulse pairs and dense records pin them",
         "CUDA kernels run under numba's CUDA simulator (same kernel source, python threads), not on a device",
-        "scale traces: 'definition' events are the recorder's direct longdouble evaluation of the DFT sum; the rounding budget (8*eps*L^2 per transform) is supplied by the recorder and capped at 64 quanta",
+        "scale traces: 'definition' events are the recorder's direct longdouble evaluation of the DFT sum; the rounding budget (8*eps*L^2 per transform) is supplied by the recorder and capped at 1024 quanta (1e-3 of the larger power)",
         "IEEE double arithmetic is exact to 1e-9 relative on the lattice (L <= 6, scaled operands <= 6000)",
     ]
     return V.finish(rule="cases = terminal states of Kernel.tla (every record/L/start-vector/window/c2/order/mode of the scope) + random scale specs; non-trivial = expected power non-zero; distinct by argument hash")
